@@ -410,6 +410,7 @@ PROPS = {
 }
 # fixed-data jobs: one concrete data set, every query symbolic
 # (C interface on fixed data, cpgm_fixed(...): out of memory at 14 GB for n = 24 and n = 32 although the same data sets cost 10-25 s through PGMIndex directly; not debugged in the time left - not jobs)
+JOBS['C18'] += [cpgm_fixed('cpgm_fixed_u32_n8_e1_dense_gap', 'uint32_t', 'uint32', fixed_data('uint32_t', 8, 11, 'dense_gap'), 1, tiers=T, timeout=1800)]     # 8 keys (a run of 7 consecutive keys, a wide gap, one key): the largest C-interface fixed-data job that gave a verdict (755 s, 9.3 GB first run); n = 24/32 run out of memory
 JOBS['C11'] += [mapped_fixed('mapped_fixed_u32_n40_dups', 'uint32_t', dup_data('uint32_t', 40, 3))]
 JOBS['C14'] += [md_fixed('md_fixed_contains_n16_s1', 0, 16, 1)]
 # (range() on a fixed point set with a symbolic box: out of memory at 14 GB even for 5 points - the symbolic box drives every bigmin step; not a job)
